@@ -73,3 +73,42 @@ Example C04_nonvacuous :
   map (@t_pc nat) (c_threads s) = [PDone (Some Pending) None None; PDone None (Some 0) None] /\
   c_val s = 5 /\ c_woken s = [0].
 Proof. vm_compute. repeat split. Qed.
+
+(* ---------------- what the sequential order implies (ObsSeqFacts.v) ----------------
+   By C04_lin_step / C04_lin_once every concurrent execution has the results of a sequential
+   history of the same calls; the consequences the property names are facts about such histories. *)
+From EB Require Import ObsSpec ObsSeqFacts.
+
+(* every set returns the value stored by its immediate predecessor: the previous values returned by
+   all sets followed by the final value are the initial value followed by all values written (any
+   non-storing calls - polls, gets, subscribing, cloning, drops - interleaved) *)
+Theorem C04_seq_set_chain :
+  forall (V : Type) (veq heq : V -> V -> bool) (vdefault : V) (o : obs V) xs o' l,
+    (forall x, In x xs -> stores x = true -> exists v, x = WSet v) ->
+    run_outs veq heq vdefault o xs = (o', l) ->
+    set_prevs l ++ [val o'] = val o :: set_written l.
+Proof. exact @set_chain. Qed.
+Print Assumptions C04_seq_set_chain.
+
+(* each subscriber observes versions in that order, never going backwards *)
+Theorem C04_seq_observed_monotone :
+  forall (V : Type) (veq heq : V -> V -> bool) (vdefault : V) (o : obs V) x o' r w k ov ov',
+    oinv o -> owners o <> 0 -> x <> SReset k ->
+    step veq heq vdefault o x = Ok (o', r, w) ->
+    nth_error (subs o) k = Some (Some ov) -> nth_error (subs o') k = Some (Some ov') ->
+    ov <= ov'.
+Proof. exact @observed_monotone. Qed.
+Print Assumptions C04_seq_observed_monotone.
+
+(* after the writers have finished a subscriber ends on the final value: polling yields the current
+   value at most once and is then Pending *)
+Theorem C04_seq_subscriber_ends_on_final :
+  forall (V : Type) (veq heq : V -> V -> bool) (vdefault : V) (o : obs V) k ov,
+    oinv o -> owners o <> 0 -> nth_error (subs o) k = Some (Some ov) ->
+    (ov = ver o /\ exists o1, step veq heq vdefault o (SPoll k) = Ok (o1, OPollR Pending, []) /\ val o1 = val o)
+    \/
+    (ov < ver o /\ exists o1 o2,
+       step veq heq vdefault o (SPoll k) = Ok (o1, OPollR (Ready (Some (val o))), []) /\
+       step veq heq vdefault o1 (SPoll k) = Ok (o2, OPollR Pending, []) /\ val o2 = val o).
+Proof. exact @subscriber_ends_on_final. Qed.
+Print Assumptions C04_seq_subscriber_ends_on_final.
